@@ -532,7 +532,7 @@ class StorageRunner:
         return ' '.join([r] + extra)
 
     def undo_not_single(self, tid, oid):
-        """the transaction `tid` exists and did not write exactly the object `oid`"""
+        """the transaction `tid` exists and does not hold exactly one record, of object `oid`"""
         try:
             it = self.storage.iterator(p64(tid), p64(tid))
             txns = [[u64(r.oid) for r in t] for t in it if u64(t.tid) == tid]
@@ -540,7 +540,7 @@ class StorageRunner:
                 it.close()
         except Exception:
             return False
-        return any(set(oids) != {oid} for oids in txns)
+        return any(oids != [oid] for oids in txns)
 
     def reopen(self):
         """clean close of the FileStorage (which saves its index) and reopen from the saved index"""
